@@ -285,6 +285,23 @@ class Inliner:
         return fn
 
 
+def _rebound_before(fn: ast.FunctionDef, y: str, st: ast.stmt) -> bool:
+    """every assignment of the parameter y is a top-level statement that precedes the
+    top-level statement containing st (so y is stable from st on)"""
+    pos = None
+    for i, top in enumerate(fn.body):
+        if any(n is st for n in ast.walk(top)):
+            pos = i
+    if pos is None:
+        return False
+    for i, top in enumerate(fn.body):
+        has = any(isinstance(n, ast.Name) and n.id == y and isinstance(n.ctx, (ast.Store, ast.Del))
+                  for n in ast.walk(top))
+        if has and (i >= pos or not isinstance(top, (ast.Assign, ast.AnnAssign))):
+            return False
+    return True
+
+
 def propagate_copies(fn: ast.FunctionDef, generated: Optional[Set[str]] = None) -> None:
     """remove the alias chains inlining leaves behind (`p' = p`, `result = v`, `x = result`):
     for `x = y` with x stored exactly once, y a never-reassigned parameter -> x is renamed to y;
@@ -311,6 +328,8 @@ def propagate_copies(fn: ast.FunctionDef, generated: Optional[Set[str]] = None) 
                         if x == y or stores.get(x) != 1 or x in params:
                             continue
                         if y in params and stores.get(y, 0) == 0:
+                            found = (blk, st, x, y)
+                        elif y in params and _rebound_before(fn, y, st):
                             found = (blk, st, x, y)
                         elif y not in params and stores.get(y) == 1:
                             # the caller's own name survives, not the inliner's
